@@ -181,7 +181,21 @@ fn check_graph(n: usize, adj: &[u32], subsets: &[u32], repeats: u32, st: &mut St
         let mk = |i: usize| DependencyNode {
             name: if shared_names { name(i / 2) } else { name(i) },
             path: format!("src/{}.rs", i),
-            node_type: if i % 2 == 0 { DependencyNodeType::Struct } else { DependencyNodeType::Enum },
+            node_type: match (i + rep as usize) % 5 {
+                0 => DependencyNodeType::Struct,
+                1 => DependencyNodeType::Enum,
+                2 => DependencyNodeType::Command,
+                3 => DependencyNodeType::Type,
+                _ => DependencyNodeType::Module,
+            },
+        };
+        // every kind of edge is an ordering constraint
+        let kind = |u: usize, v: usize| match (u * 3 + v + rep as usize) % 5 {
+            0 => DependencyType::Field,
+            1 => DependencyType::Direct,
+            2 => DependencyType::Variant,
+            3 => DependencyType::Import,
+            _ => DependencyType::Generic,
         };
         let mut r = DependencyResolver::new();
         for u in 0..n {
@@ -190,7 +204,7 @@ fn check_graph(n: usize, adj: &[u32], subsets: &[u32], repeats: u32, st: &mut St
         for u in 0..n {
             for v in 0..n {
                 if adj[u] >> v & 1 == 1 {
-                    let d = Dependency { from: mk(u), to: mk(v), dependency_type: DependencyType::Field };
+                    let d = Dependency { from: mk(u), to: mk(v), dependency_type: kind(u, v) };
                     r.add_dependency(d.clone());
                     if dup_edges && (u + v + rep as usize) % 3 == 0 {
                         r.add_dependency(d); // duplicate edge
